@@ -32,10 +32,26 @@ def enc(s):
     return ','.join(str(ord(c)) for c in s) if s else '-'
 
 
+BYSTANDERS = {}
+
+
 def run_real(rows, cols, ops, alias_pick=0):
     s = SCR.screen(rows, cols)
     qs = []
-    for op in ops:
+    # one case in four: another screen of the same size lives on from earlier cases and is written to, scrolled and re-configured between
+    # this screen's operations, and a third one is constructed - a screen's cells, cursor, saved cursor and scroll region are its own
+    other = None
+    if alias_pick % 4 == 1:
+        other = BYSTANDERS.get((rows, cols))
+        if other is None:
+            other = BYSTANDERS[(rows, cols)] = SCR.screen(rows, cols)
+    for k, op in enumerate(ops):
+        if other is not None:
+            other.put_abs(1 + k % rows, 1 + k % cols, '#')
+            other.cursor_home(rows, cols); other.cursor_save_attrs()
+            other.scroll_screen_rows(1, 1) if k % 2 else other.scroll_screen()
+            other.scroll_down()
+            SCR.screen(rows, cols).put_abs(1, 1, '%')
         name = op[0]
         asbytes = name.endswith('B')
         name = name.rstrip('B')
